@@ -146,7 +146,9 @@ def run_kani(scratch, crate, harnesses, timeout=900, jobs=None, extra=None, unwi
     env = dict(KANI_ENV)
     if debug_assertions:
         env["CARGO_PROFILE_DEV_DEBUG_ASSERTIONS"] = "true"
-    env["CARGO_TARGET_DIR"] = os.path.join(CACHE, "kani-target")
+    # one Kani build directory per property: cargo names the artefacts of a workspace member independently of where
+    # the workspace lies, so checks of two properties running side by side would overwrite each other's GOTO files
+    env["CARGO_TARGET_DIR"] = os.path.join(CACHE, "kani-target", scratch.prop)
     jobs = jobs or min(8, max(1, len(harnesses)))
     res = {}
     # first harness alone first (warms the shared build), the rest in parallel
@@ -164,7 +166,9 @@ def run_kani_batch(scratch, crate, harnesses, timeout=1800, extra=None, mem_gb=2
     import subprocess
     env = dict(os.environ)
     env.update(KANI_ENV)
-    env["CARGO_TARGET_DIR"] = os.path.join(CACHE, "kani-target")
+    # one Kani build directory per property: cargo names the artefacts of a workspace member independently of where
+    # the workspace lies, so checks of two properties running side by side would overwrite each other's GOTO files
+    env["CARGO_TARGET_DIR"] = os.path.join(CACHE, "kani-target", scratch.prop)
     cmd = ["cargo", "kani", "-p", crate, "-Z", "function-contracts", "-Z", "stubbing"]
     for h in harnesses:
         cmd += ["--harness", h]
